@@ -1221,13 +1221,13 @@ func (p *printer) listForPhrase(list []*ast.ForPhrase) {
 		if i > 0 {
 			p.print(blank)
 		}
-		p.print(token.FOR, blank)
+		p.print(x.For, token.FOR, blank)
 		if x.Key != nil {
 			p.expr(x.Key)
 			p.print(token.COMMA, blank)
 		}
-		p.print(x.Value, blank)
-		p.print(x.TokPos, in, blank)
+		p.expr(x.Value)
+		p.print(blank, x.TokPos, in, blank)
 		p.expr(x.X)
 		if x.Cond != nil {
 			p.print(blank, x.Cond.Pos(), token.IF, blank)
